@@ -60,8 +60,11 @@ impl log::Log for FlexiLogger {
         if !self.other_writers.is_empty() && target.starts_with('{') {
             // at least one other writer is configured _and_ addressed
             let targets: Vec<&str> = target[1..(target.len() - 1)].split(',').collect();
+            let mut use_default = false;
             for t in targets {
-                if t != "_Default" {
+                if t == "_Default" {
+                    use_default = true;
+                } else {
                     match self.other_writers.get(t) {
                         None => {
                             eprint_msg(ErrorCode::WriterSpec, &format!("bad writer spec: {t}"));
@@ -74,6 +77,19 @@ impl log::Log for FlexiLogger {
                     }
                 }
             }
+            // log() sends such a record to the default channel only if "_Default" is addressed,
+            // and filters it there with the module path of the record, which is not known
+            // here; so we must not answer false if the spec enables the level for any module.
+            return use_default
+                && level
+                    <= self
+                        .log_specification
+                        .read()
+                        .map_err(|e| {
+                            eprint_err(ErrorCode::Poison, "rwlock on log spec is poisoned", &e);
+                        })
+                        .unwrap()
+                        .max_level();
         }
 
         self.primary_enabled(level, target)
